@@ -153,11 +153,13 @@ def c13(F, R, tier):
 
 
 @prop("C19",
-      technique="static: sibling agreement of the static (can_apply_*, get_type) and runtime (apply_*_op) operator tables extracted from typed HIR and evaluated over the full finite kind x operator x kind domain; error-conversion rule; inventory of Any escapes",
-      explanation="Decides (S-OPS) for all 10 x 9 x 12 (kind, binary operator, kind) and 10 x 2 unary cells: whenever PrimitiveKind::can_apply_* accepts, the runtime arm selected in the ApplyOp impls cannot build a type-class OperatorError; (S-RESULT) for the 4 x 4 x 4 numeric cells and negation, the kind PreExp::get_type predicts is the Primitive variant the runtime arm builds (through checked_i64/checked_u64/checked_div); (ERR-KIND) no variant-blind `Err(_)` arm converts an error enum that has data-dependent variants (DivisionByZero, Overflow, ...) into a type-class TransformError; (S-ANY) every construct where the checker waves PrimitiveKind::Any through is enumerated (each is a hole in soundness by construction); (D-SCOPE-USE) in every type-checking function that opens one frame per iteration and pops them in a loop, every use of the checker context with a part of the checked item other than the iteration list (sides, name indexes) lies between the pushes and the pops, as it does when the item is transformed -- a check outside the frames sees the iteration variables unbound and accepts what the transformer rejects. NOT decided: element kinds of iterables/tuples/graphs, builtin function signatures vs their call bodies (S-FN, not built), user-supplied functions.")
+      technique="static: sibling agreement of the static (can_apply_*, get_type) and runtime (apply_*_op) operator tables extracted from typed HIR and evaluated over the full finite kind x operator x kind domain; error-conversion rule; inventory of Any escapes; bounded symbolic evaluation of the type checker and the transformer (typed HIR) on a family of ill-typed programs",
+      explanation="Decides (S-OPS) for all 10 x 9 x 12 (kind, binary operator, kind) and 10 x 2 unary cells: whenever PrimitiveKind::can_apply_* accepts, the runtime arm selected in the ApplyOp impls cannot build a type-class OperatorError; (S-RESULT) for the 4 x 4 x 4 numeric cells and negation, the kind PreExp::get_type predicts is the Primitive variant the runtime arm builds (through checked_i64/checked_u64/checked_div); (ERR-KIND) no variant-blind `Err(_)` arm converts an error enum that has data-dependent variants (DivisionByZero, Overflow, ...) into a type-class TransformError; (S-ANY) every construct where the checker waves PrimitiveKind::Any through is enumerated (each is a hole in soundness by construction); (D-SCOPE-USE) in every type-checking function that opens one frame per iteration and pops them in a loop, every use of the checker context with a part of the checked item other than the iteration list (sides, name indexes) lies between the pushes and the pops, as it does when the item is transformed -- a check outside the frames sees the iteration variables unbound and accepts what the transformer rejects. (TYPE-SOUND) a family of programs with perturbed types -- 21 value kinds (integer, float, string, boolean, array, nested array, string array, graph, range, literals, node, edge, row, element, tuple part, array element, len) x ~120 positions (operands of + - * / in constants and constraints, negation, comparison sides, the five logic operators, compound-variable indexes, range ends, iteration and quantifier sets with and without use of the element, destructuring of 2 and 3 names, array access target and indexes, block and scoped block bodies, domain bounds and sets, every argument position of the 11 builtin functions incl. one argument too many or too few, unknown function, nested scopes; quick ~820 programs, thorough ~2 470): the type checker (create_type_checker and everything it calls, with the per-function type_check overrides) and the transformer are both evaluated from typed HIR; a program the checker accepts must not fail in the transformer with WrongArgument, WrongExpectedArgument, WrongFunctionSignature, WrongNumberOfArguments, BinOpError, UnOpError, Unspreadable, SpreadError, NonExistentFunction or UndeclaredVariable. During development the emulated verdicts (accept / reject / error kind) were identical to the real compiler's on all 2 466 programs. NOT decided: programs outside the family, user-supplied functions and constants.")
 def c19(F, R, tier):
     import c19 as mod
     mod.check(F, R)
+    import c19rt
+    c19rt.check(F, R, get_grammar(), tier)
 
 
 @prop("C20",
